@@ -23,7 +23,9 @@ impl Declarations {
 
     #[must_use]
     pub fn get_declaration(&self, name: &VariableName) -> Option<&Declaration> {
-        self.0.get(&name.without_version())
+        // After the conversion to SSA form each version of a local variable has a
+        // declaration of its own. Signals and components are not versioned.
+        self.0.get(name).or_else(|| self.0.get(&name.without_version()))
     }
 
     #[must_use]
